@@ -43,6 +43,9 @@ def mark_src(mark):
 def tags_src(mode, style=None):
     """Source of the tags tuple of an execution mode; style 'str': the tags are spelled as plain strings (NodeTag is a
     str-enum, `('process',)` is the same declaration as `(NodeTag.process,)`)."""
+    if mode == 'async_tagged' and style in ('coro_thread', 'coro_process'):
+        # a coroutine that carries a pool tag: it is still awaited in the loop, the tag is ignored
+        return '(NodeTag.thread,)' if style == 'coro_thread' else '(NodeTag.process,)'
     if mode in ('inline', 'async_tagged'):
         return "('non_async',)" if style == 'str' else '(NodeTag.non_async,)'     # async_tagged: a coroutine ignores the tag
     if mode == 'process':
@@ -162,9 +165,23 @@ def generic_src(n):
         args.insert(1, f'node_name={nid!r}')
     if n.get('dep_default'):
         args.append(f"dependencies_default=dict(dd=('DD', {nid!r}))")
+    attrs = []
     if n.get('attrs_tags'):
         # the derived node overrides the execution mode of the generic base class
-        args.append('attrs={' + repr('tags') + ': ' + (tags_src(n.get('mode', 'thread'), n.get('tag_style')) or '()') + '}')
+        attrs.append(repr('tags') + ': ' + (tags_src(n.get('mode', 'thread'), n.get('tag_style')) or '()'))
+    r = n.get('retry')
+    if n.get('attrs_retry') and r:
+        if r.get('attempts') is not None:
+            attrs.append(f"'attempts': {r['attempts']!r}")
+        if r.get('delay') is not None:
+            attrs.append(f"'delay': {r['delay']!r}")
+        if r.get('exceptions') is not None:
+            attrs.append("'exceptions': (" + ''.join(
+                (f'rt.{e}, ' if e not in ('Exception', 'BaseException') else f'{e}, ') for e in r['exceptions']) + ')')
+        if r.get('use_default'):
+            attrs.append("'use_default': True")
+    if attrs:
+        args.append('attrs={' + ', '.join(attrs) + '}')
     if deps:
         args.append(deps)
     if n.get('start_of') and not n.get('no_additional_data'):
